@@ -76,6 +76,8 @@ func runC01(p *Program, r *Report) {
 	c02frag(p, r, "C01.frag")
 	c14side(p, r, "C01.side")
 	c14sideUse(p, r, "C01.side.use")
+	c07alias(p, r, "C01.pool")
+	c07get(p, r, "C01.pool.get")
 	c14server(p, r, "C01.negotiation.server")
 	c14client(p, r, "C01.negotiation.client")
 	sub := newReport(r.Prop, r.Tier)
